@@ -355,6 +355,86 @@ def _replay_e(param, a):
     return C04._wrap(run_enqueue_race(a["k"], {}))
 
 
+def run_master_parked(k: int, record: Dict[str, Any]):
+    """Roles swapped: the MASTER loop is the thread under the line scheduler (preemption points: every line of
+    queue_orchestrator.py it executes); after its k-th line another client enqueues a second job (complete call), then the
+    master goes on.  Both futures must complete with their own results after worker and master have drained everything."""
+    from semantiva.context_processors import ContextType
+    from semantiva.execution.executor.executor import SequentialSemantivaExecutor
+    from semantiva.execution.job_queue.queue_orchestrator import QueueSemantivaOrchestrator
+    from semantiva.execution.job_queue.worker import worker_loop
+    from semantiva.execution.transport import InMemorySemantivaTransport
+    from vt import lib
+    from vt.linesched import HarnessStall, LineScheduler
+
+    lib.register()
+    tr = InMemorySemantivaTransport()
+    master = QueueSemantivaOrchestrator(tr, stop_event=_Stop(3), logger=lib.QUIET)
+    master.job_queue = _Q()
+    pcs = _job_pipelines()
+    futs = [master.enqueue([dict(n) for n in pcs[0]], data=lib.IntData(100), context=ContextType({"tag": 0}), return_future=True, registry_profile=None)]
+    ls = LineScheduler(("semantiva/execution/job_queue/queue_orchestrator.py",), reduce_local=False)
+    ls.add(master.run_forever)
+    try:
+        ls.start()
+        steps = 0
+        while ls.enabled():
+            if steps == k:
+                futs.append(master.enqueue([dict(n) for n in pcs[1]], data=lib.IntData(101), context=ContextType({"tag": 1}), return_future=True, registry_profile=None))
+            ls.step(0)
+            steps += 1
+    except HarnessStall:
+        ls.abort()
+        raise
+    record["master_steps"] = steps
+    if len(futs) == 1:
+        futs.append(master.enqueue([dict(n) for n in pcs[1]], data=lib.IntData(101), context=ContextType({"tag": 1}), return_future=True, registry_profile=None))
+    err = ls.workers[0].error
+    if err is not None:
+        return Fail("C15.E2:master-loop-died:%s" % type(err).__name__, "the master loop raised %r when a client enqueued a job while it was at its %d-th line: every outstanding Future hangs" % (err, k))
+    for _ in range(2):
+        master.stop_event = _Stop(3)
+        master.run_forever()
+        worker_loop(0, tr, SequentialSemantivaExecutor(), _Stop(3), logger=lib.QUIET, poll_interval=0.0)
+    master.stop_event = _Stop(4)
+    master.run_forever()
+    for i, fut in enumerate(futs):
+        if not fut.done():
+            return Fail("C15.E2:future-never-completes", "job %d: Future pending after everything was drained (second job enqueued while the master was at line step %d of %d)" % (i, k, steps))
+        data, ctx = fut.result()
+        exp = _direct(pcs[i], 100 + i, i)
+        got = ctx.to_dict()
+        got.pop("job_id", None)
+        if data.data != exp[1] or got != exp[2]:
+            return Fail("C15.E2:wrong-result", "job %d got %r/%r, its own result is %r/%r" % (i, data.data, got, exp[1], exp[2]))
+    return True
+
+
+def _make_e2(param):
+    nlines = param
+
+    def body(k: int):
+        from crosshair.tracers import NoTracing
+        from vt.engine import assume
+
+        assume(0 <= k <= nlines)
+        ck = next(i for i in range(nlines + 1) if k == i)
+        with NoTracing():
+            rec: Dict[str, Any] = {}
+            v = run_master_parked(ck, rec)
+            if v is True and rec.get("master_steps", 0) > nlines:
+                return Fail("C15.E2:harness-step-bound", "master took %d line steps, bound %d" % (rec["master_steps"], nlines))
+            return v
+
+    return body
+
+
+def _master_lines() -> int:
+    rec: Dict[str, Any] = {}
+    run_master_parked(-1, rec)
+    return rec["master_steps"] + 12
+
+
 def _enqueue_lines() -> int:
     rec: Dict[str, Any] = {}
     run_enqueue_race(-1, rec)
@@ -373,6 +453,9 @@ def obligations(tier: str) -> List[Ob]:
     obs.append(Ob("C15.E", _make_e, _replay_e, params=[_enqueue_lines()], budget=600, per_path=120,
                   bound="the caller of enqueue() parked after its k-th line (k symbolic over all line events of enqueue, measured from the source) while master and worker handle the job to quiescence, then resumed; 1 job",
                   targets=["semantiva/execution/job_queue/queue_orchestrator.py:QueueSemantivaOrchestrator.enqueue", "semantiva/execution/job_queue/queue_orchestrator.py:QueueSemantivaOrchestrator.run_forever", "semantiva/execution/job_queue/worker.py:worker_loop"]))
+    obs.append(Ob("C15.E2", _make_e2, lambda p, a: C04._wrap(run_master_parked(a["k"], {})), params=[_master_lines()], budget=900, per_path=120,
+                  bound="the master loop parked after its k-th line of queue_orchestrator.py (k symbolic over all its line events in a 3-iteration run, measured from the source) while a client enqueues a second job; 2 jobs",
+                  targets=["semantiva/execution/job_queue/queue_orchestrator.py:QueueSemantivaOrchestrator.run_forever", "semantiva/execution/job_queue/queue_orchestrator.py:QueueSemantivaOrchestrator.enqueue"]))
     shapes_ = [(1, 1), (2, 1)] + ([(1, 2), (2, 2)] if big else [])
     P = 1 if not big else 2
     sp = []
